@@ -80,9 +80,9 @@ def validate_blocks(trace, tag):
     out = trace + ".blk.out"
     if os.path.exists(out):
         os.unlink(out)
-    r = vlib.tlc("BlocksTrace", "BlocksTrace.cfg", workers=1, env={"TRACE": trace, "OUT": out}, timeout=2400, java_opts=["-Xmx8g"])
+    r = vlib.tlc("BlocksTrace", "BlocksTrace.cfg", workers=1, env={"TRACE": trace, "OUT": out}, timeout=2400, java_opts=["-Xmx8g", "-Xss64m"])
     if r.rc != 0 or not os.path.exists(out):
-        r = vlib.tlc("BlocksTrace", "BlocksTrace.cfg", workers=1, env={"TRACE": trace, "OUT": out}, timeout=2400, java_opts=["-Xmx8g"], quiet=False)
+        r = vlib.tlc("BlocksTrace", "BlocksTrace.cfg", workers=1, env={"TRACE": trace, "OUT": out}, timeout=2400, java_opts=["-Xmx8g", "-Xss64m"], quiet=False)
         if r.rc != 0 or not os.path.exists(out):
             raise RuntimeError("BlocksTrace failed to run rc=%s" % r.rc)
     lines = [json.loads(x) for x in open(out) if x.strip()]
@@ -94,7 +94,7 @@ def validate_l2_infer(trace, nw, nt, tag):
     out = trace + ".l2.out"
     if os.path.exists(out):
         os.unlink(out)
-    r = vlib.tlc("PoolTrace", cfg, workers=1, env={"TRACE": trace, "OUT": out, "INFER": "1"}, timeout=2400, java_opts=["-Xmx8g"])
+    r = vlib.tlc("PoolTrace", cfg, workers=1, env={"TRACE": trace, "OUT": out, "INFER": "1"}, timeout=2400, java_opts=["-Xmx8g", "-Xss64m"])
     if r.rc != 0 or not os.path.exists(out):
         raise RuntimeError("PoolTrace (infer) failed to run rc=%s\n%s" % (r.rc, r.out[-1500:]))
     lines = [json.loads(x) for x in open(out) if x.strip()]
